@@ -52,10 +52,28 @@ type mval struct {
 	nest map[string]int // nested map attribute "m"
 	list []int          // slice-valued attribute "l"
 	pmm  map[string]int // pairing_mismatches (position bearing)
+	feat string         // feature table (as the GenBank / EMBL readers attach it)
+}
+
+func featDigest(f string) string {
+	if f == "" {
+		return "-"
+	}
+	return fmt.Sprintf("%d:%s", len(f), sha(f)[:8])
+}
+
+// featText: a feature table of 300-700 bytes (SetFeatures recycles buffers of 300 bytes and more).
+func featText(t *simrt.Tape) string {
+	var b strings.Builder
+	n := 300 + t.Choose(400)
+	for i := 0; b.Len() < n; i++ {
+		fmt.Fprintf(&b, "FT   misc_feature    %d..%d\nFT                   /note=\"f%d-%d\"\n", 1+t.Choose(50), 60+t.Choose(50), i, t.Choose(1000))
+	}
+	return b.String()
 }
 
 func (m mval) clone() mval {
-	c := mval{seq: m.seq, tag: m.tag}
+	c := mval{seq: m.seq, tag: m.tag, feat: m.feat}
 	if m.qual != nil {
 		c.qual = append([]byte{}, m.qual...)
 	}
@@ -82,7 +100,7 @@ func (m mval) String() string {
 	if len(m.qual) > 0 {
 		q = fmt.Sprint(m.qual)
 	}
-	return fmt.Sprintf("seq=%s|q=%s|t=%s|m=%s|pmm=%s|l=%v", m.seq, q, m.tag, mapString(m.nest), mapString(m.pmm), m.list)
+	return fmt.Sprintf("seq=%s|q=%s|t=%s|m=%s|pmm=%s|l=%v|f=%s", m.seq, q, m.tag, mapString(m.nest), mapString(m.pmm), m.list, featDigest(m.feat))
 }
 
 func observe(s *obiseq.BioSequence) string {
@@ -102,7 +120,7 @@ func observe(s *obiseq.BioSequence) string {
 			list = l
 		}
 	}
-	return fmt.Sprintf("seq=%s|q=%s|t=%s|m=%s|pmm=%s|l=%v", s.String(), q, tag, mapString(nest), mapString(pmm), list)
+	return fmt.Sprintf("seq=%s|q=%s|t=%s|m=%s|pmm=%s|l=%v|f=%s", s.String(), q, tag, mapString(nest), mapString(pmm), list, featDigest(s.Features()))
 }
 
 type handle struct {
@@ -206,24 +224,47 @@ func runHistory(tp *simrt.Tape, task int, nops int, fail func(class, msg string)
 				v.tag = "v0"
 				obj.SetAttribute("t", "v0")
 			}
+			// a map-valued attribute as the code builds it in memory (map[string]int) or as the
+			// readers deliver it from a JSON header (map[string]interface{} of float64)
+			asRead := func(m map[string]int) any {
+				switch tp.Choose(3) {
+				case 1:
+					g := map[string]interface{}{}
+					for k, x := range m {
+						g[k] = float64(x)
+					}
+					return g
+				case 2:
+					g := map[string]interface{}{}
+					for k, x := range m {
+						g[k] = x
+					}
+					return g
+				}
+				c := map[string]int{}
+				for k, x := range m {
+					c[k] = x
+				}
+				return c
+			}
 			if tp.Choose(3) == 2 {
 				v.nest = map[string]int{"a": 1, "b": 2}
-				obj.SetAttribute("m", map[string]int{"a": 1, "b": 2})
+				obj.SetAttribute("m", asRead(v.nest))
 			}
 			if tp.Choose(3) == 2 {
 				v.list = []int{2, 5, 9}
 				obj.SetAttribute("l", []int{2, 5, 9})
+			}
+			if tp.Choose(3) == 2 {
+				v.feat = featText(tp)
+				obj.SetFeatures([]byte(v.feat)) // the sequence owns the buffer from now on
 			}
 			if tp.Choose(3) == 2 && len(s) > 2 {
 				v.pmm = map[string]int{}
 				for k := 0; k <= tp.Choose(2); k++ {
 					v.pmm[pmmKey(tp)] = 1 + tp.Choose(len(s)-1)
 				}
-				cp := map[string]int{}
-				for k, p := range v.pmm {
-					cp[k] = p
-				}
-				obj.SetAttribute("pairing_mismatches", cp)
+				obj.SetAttribute("pairing_mismatches", asRead(v.pmm))
 			}
 			add(obj, v, "new")
 			desc = "new"
@@ -282,6 +323,7 @@ func runHistory(tp *simrt.Tape, task int, nops int, fail func(class, msg string)
 					}
 				}
 			}
+			v.feat = sub.Features() // whether a window keeps the feature table is not stated: whatever it has must stay
 			add(sub, v, "sub of "+h.name)
 		case 4, 5: // reverse complement
 			inplace := kind == 5
@@ -344,6 +386,11 @@ func runHistory(tp *simrt.Tape, task int, nops int, fail func(class, msg string)
 				}
 			}
 			desc = "SetAttribute(" + h.name + ")"
+			if tp.Choose(3) == 0 {
+				h.val.feat = featText(tp)
+				h.obj.SetFeatures([]byte(h.val.feat))
+				desc += "+SetFeatures"
+			}
 		case 9: // recycle
 			h.obj.Recycle()
 			h.alive = false
